@@ -349,8 +349,10 @@ pub fn parse<S: Src + ?Sized>(src: &S, o: Opts) -> Result<Parsed, String> {
         pe.local_flags = lflags;
         pe.data_start = pe.header_start + 30 + (nl + xl) as u64;
         let lrecs = tlv(&pe.local_extra).map_err(|e| format!("entry {i}: local {e}"))?;
-        if !o.lenient || true {
-            if lflags != pe.flags {
+        {
+            // lenient: an appended archive gets its central flags recomputed while the old local
+            // header keeps option/descriptor bits; only the writer's own output must agree exactly
+            if !o.lenient && lflags != pe.flags {
                 return Err(format!("entry {i}: local flags {lflags:#06x} != central {:#06x}", pe.flags));
             }
             if lmethod != pe.method {
@@ -379,7 +381,7 @@ pub fn parse<S: Src + ?Sized>(src: &S, o: Opts) -> Result<Parsed, String> {
                 return Err(format!("entry {i}: ZIP64 extra present but version needed {} < 45", pe.version_needed));
             }
         }
-        let has_desc = pe.flags & 8 != 0;
+        let has_desc = (pe.flags | lflags) & 8 != 0;
         let lz: Vec<&(u16, Vec<u8>)> = lrecs.iter().filter(|r| r.0 == 1).collect();
         pe.local_has_zip64 = !lz.is_empty();
         let (mut l_us, mut l_cs) = (lus as u64, lcs as u64);
